@@ -75,10 +75,14 @@ func foreignName(n int, now time.Time) string {
 		"db__x.pb.gz",
 		"db__a__" + ts + "__GX.pb.gz.tmp",
 		"db__a__" + ts[:len(ts)-1] + "__GX.pb.gz",
+		"db2__a__" + ts + "__GX.pb.gz", // a database whose name extends ours
+		"db2__a__" + snapshot.NameTimestamp(now.Add(-2*time.Hour)) + "__GX.pb.gz",
+		"d__a__" + ts + "__GX.pb.gz", // a database whose name is a prefix of ours
+		"d__a__" + snapshot.NameTimestamp(now.Add(-2*time.Hour)) + "__GX.pb.gz",
 	}[n]
 }
 
-const nForeign = 6
+const nForeign = 10
 
 func newSim(cfg ccfg) *sim {
 	s := &sim{cfg: cfg, b: world.NewBucket(), now: epoch, firstSeen: map[string]time.Time{}, committed: map[string]time.Time{}, lastTS: map[string]time.Time{}, foreign: map[int]bool{}}
@@ -123,11 +127,8 @@ func (s *sim) enabled() []string {
 		}
 	}
 	if s.cfg.Foreign {
-		for n := 0; n < nForeign; n++ {
-			if !s.foreign[n] {
-				evs = append(evs, fmt.Sprintf("F%d", n))
-				break // one at a time, in order
-			}
+		if !s.foreign[0] {
+			evs = append(evs, "F")
 		}
 	}
 	return evs
@@ -154,9 +155,10 @@ func (s *sim) apply(e string) {
 		s.lastTS[in] = ts
 		s.arrivedSinceRun = true
 	case 'F':
-		n := int(e[1] - '0')
-		s.foreign[n] = true
-		s.b.Put(foreignName(n, s.now), []byte("x"))
+		for n := 0; n < nForeign; n++ {
+			s.foreign[n] = true
+			s.b.Put(foreignName(n, s.now), []byte("x"))
+		}
 	case 'T':
 		s.now = s.now.Add(s.cfg.Adv[int(e[1]-'0')])
 	case 'C':
